@@ -115,6 +115,49 @@ pub fn apply(bytes: &mut Vec<u8>, m: &Mut) {
     }
 }
 
+/// syntactically valid footers whose meaning is degenerate: both rules denote the same UTC instant
+/// (same day, times one DST shift apart; the same rule twice with equal offsets), rules that meet
+/// only in some years (J60 vs day 59, a weekday rule landing on a fixed day), a DST offset equal
+/// to / below the standard offset, the two switch-overs a few hours or a whole year apart
+fn degenerate_footer(u: &mut Unstructured) -> arbitrary::Result<String> {
+    fn hms(secs: i32) -> String {
+        let a = secs.unsigned_abs();
+        let sign = if secs < 0 { "-" } else { "" };
+        if a % 60 != 0 {
+            format!("{}{}:{:02}:{:02}", sign, a / 3600, a / 60 % 60, a % 60)
+        } else if a % 3600 != 0 {
+            format!("{}{}:{:02}", sign, a / 3600, a / 60 % 60)
+        } else {
+            format!("{}{}", sign, a / 3600)
+        }
+    }
+    let std = *u.choose(&[0i32, 3600, -18_000, 19_800, -3600, 43_200])?; // utoff
+    let delta = *u.choose(&[3600i32, 3600, 0, 0, 1800, -3600, 7200])?;
+    let dst = std + delta;
+    let explicit = delta != 3600 || u.ratio(1, 2)?;
+    let head = format!("S{}D{}", hms(-std), if explicit { hms(-dst) } else { String::new() });
+    let day = |u: &mut Unstructured| -> arbitrary::Result<String> {
+        Ok(match u.int_in_range(0..=4u8)? {
+            0 => format!("J{}", *u.choose(&[1u32, 59, 60, 61, 100, 365])?),
+            1 => format!("{}", *u.choose(&[0u32, 58, 59, 60, 99, 364, 365])?),
+            2 => format!("M{}.{}.{}", *u.choose(&[1u32, 2, 3, 10, 12])?, u.int_in_range(1..=5u32)?, u.int_in_range(0..=6u32)?),
+            3 => "M3.1.3".to_string(),
+            _ => "J60".to_string(),
+        })
+    };
+    let a = day(u)?;
+    let b = if u.ratio(2, 3)? { a.clone() } else { day(u)? };
+    // rule 1 = start of DST, given in standard time; rule 2 = end of DST, given in DST
+    let t1 = *u.choose(&[7200i32, 0, 3600, 5400, -3600, 86_400])?;
+    let t2 = match u.int_in_range(0..=3u8)? {
+        0 | 1 => t1 + delta,          // the same UTC instant
+        2 => t1,                      // the same wall-clock reading
+        _ => t1 + delta + *u.choose(&[-1i32, 1, 60, -3600])?, // next to it
+    };
+    let t = |v: i32| if v == 7200 { String::new() } else { format!("/{}", hms(v)) };
+    Ok(format!("{},{}{},{}{}", head, a, t(t1), b, t(t2)))
+}
+
 fn hostile_footer(u: &mut Unstructured) -> arbitrary::Result<Vec<u8>> {
     fn num(u: &mut Unstructured, ok_lo: i64, ok_hi: i64) -> arbitrary::Result<String> {
         Ok(match u.int_in_range(0..=9u8)? {
@@ -151,6 +194,9 @@ fn hostile_footer(u: &mut Unstructured) -> arbitrary::Result<Vec<u8>> {
             _ => "",
         });
         Ok(s)
+    }
+    if u.ratio(1, 5)? {
+        return Ok(degenerate_footer(u)?.into_bytes());
     }
     let mut s = String::new();
     s.push_str(*u.choose(&["STD", "<+03>", "<-0330>", "ST", "S", "", "<", "<>", "<+03", "ÉST", "EST5EDT"])?);
@@ -348,6 +394,175 @@ impl Prop for Hostile {
     }
 }
 
+/// A file whose LAYOUT is consistent with its six header counts (so the parser reaches its
+/// semantic checks and the look-up code) while the CONTENT is arbitrary: any count may be zero,
+/// type indices point anywhere near the table end, transition times are unsorted, offsets and
+/// designation indices are wild, the footer is hostile, degenerate or valid.
+#[derive(Debug, Clone, Hash, Serialize, Deserialize)]
+pub struct LooseBlock {
+    pub times: Vec<i64>,
+    pub idx: Vec<u8>,
+    pub types: Vec<(i32, u8, u8)>,
+    pub chars: Vec<u8>,
+    pub leaps: u8,
+    pub isstd: Vec<u8>,
+    pub isut: Vec<u8>,
+}
+#[derive(Debug, Clone, Hash, Serialize, Deserialize)]
+pub struct LooseCase {
+    pub version: u8,
+    pub v1: LooseBlock,
+    pub v2: LooseBlock,
+    pub footer: Vec<u8>,
+    pub ts: Vec<i64>,
+    pub resolve: bool,
+}
+
+fn loose_block(u: &mut Unstructured) -> arbitrary::Result<LooseBlock> {
+    let small = |u: &mut Unstructured| -> arbitrary::Result<usize> { Ok(*u.choose(&[0usize, 0, 1, 1, 2, 3, 5])?) };
+    let ntypes = small(u)?;
+    let ntimes = small(u)?;
+    let mut times = Vec::new();
+    let mut t = u.int_in_range(-3_000_000_000i64..=2_000_000_000)?;
+    for _ in 0..ntimes {
+        times.push(t);
+        t += match u.int_in_range(0..=5u8)? {
+            0 => 0,
+            1 => -u.int_in_range(1..=1_000_000i64)?,
+            _ => u.int_in_range(1..=40_000_000i64)?,
+        };
+    }
+    let mut idx = Vec::new();
+    for _ in 0..ntimes {
+        idx.push(match u.int_in_range(0..=5u8)? {
+            0 => 0,
+            1 => ntypes as u8,
+            2 => (ntypes as u8).wrapping_sub(1),
+            3 => (ntypes as u8).wrapping_add(1),
+            _ => u.int_in_range(0..=ntypes.max(1) as u8 - 1)?,
+        });
+    }
+    let nchars = *u.choose(&[0usize, 1, 4, 8, 12])?;
+    let mut types = Vec::new();
+    for _ in 0..ntypes {
+        let utoff = match u.int_in_range(0..=4u8)? {
+            0 => *u.choose(&[i32::MIN, i32::MAX, -86_400, 86_400, 89_999, -89_999, 1 << 25, -(1 << 25)])?,
+            _ => u.int_in_range(-54_000..=54_000i32)?,
+        };
+        types.push((utoff, *u.choose(&[0u8, 1, 1, 2, 255])?, *u.choose(&[0u8, 0, 4, 8, 11, 12, 255])?));
+    }
+    let mut chars = Vec::new();
+    for k in 0..nchars {
+        chars.push(if k % 4 == 3 && u.ratio(7, 8)? { 0 } else { *u.choose(&[b'L', b'M', b'T', b'+', b'0', 0xc3, 0])? });
+    }
+    let n_std = *u.choose(&[0usize, ntypes, ntypes, ntypes + 1])?;
+    let n_ut = *u.choose(&[0usize, ntypes, ntypes, 1])?;
+    Ok(LooseBlock { times, idx, types, chars, leaps: *u.choose(&[0u8, 0, 0, 1, 2])?, isstd: (0..n_std).map(|k| (k % 2) as u8).collect(), isut: (0..n_ut).map(|k| (k % 3 == 0) as u8).collect() })
+}
+
+fn build_loose_block(b: &LooseBlock, time_size: usize, vb: u8, out: &mut Vec<u8>) {
+    out.extend_from_slice(b"TZif");
+    out.push(vb);
+    out.extend_from_slice(&[0u8; 15]);
+    for v in [b.isut.len(), b.isstd.len(), b.leaps as usize, b.times.len(), b.types.len(), b.chars.len()] {
+        out.extend_from_slice(&(v as u32).to_be_bytes());
+    }
+    for t in &b.times {
+        if time_size == 4 {
+            out.extend_from_slice(&(*t as i32).to_be_bytes());
+        } else {
+            out.extend_from_slice(&t.to_be_bytes());
+        }
+    }
+    // one index byte per transition (idx is padded / cut to the number of times)
+    for k in 0..b.times.len() {
+        out.push(b.idx.get(k).copied().unwrap_or(0));
+    }
+    for (utoff, dst, des) in &b.types {
+        out.extend_from_slice(&utoff.to_be_bytes());
+        out.push(*dst);
+        out.push(*des);
+    }
+    out.extend_from_slice(&b.chars);
+    for k in 0..b.leaps as usize {
+        if time_size == 4 {
+            out.extend_from_slice(&(78_796_800i32 + k as i32 * 31_536_000).to_be_bytes());
+        } else {
+            out.extend_from_slice(&(78_796_800i64 + k as i64 * 31_536_000).to_be_bytes());
+        }
+        out.extend_from_slice(&(k as i32 + 1).to_be_bytes());
+    }
+    out.extend_from_slice(&b.isstd);
+    out.extend_from_slice(&b.isut);
+}
+
+pub struct Loose;
+impl Prop for Loose {
+    type Case = LooseCase;
+    const NAME: &'static str = "C19.consistent_layouts";
+    const BYTES: usize = 700;
+    fn gen(u: &mut Unstructured<'_>) -> arbitrary::Result<LooseCase> {
+        let version = *u.choose(&[1u8, 2, 2, 3, 3])?;
+        let v1 = loose_block(u)?;
+        let v2 = loose_block(u)?;
+        let footer = match u.int_in_range(0..=4u8)? {
+            0 => Vec::new(),
+            1 => hostile_footer(u)?,
+            2 => degenerate_footer(u)?.into_bytes(),
+            _ => tzsyn::gen_footer(u, version == 3)?.into_bytes(),
+        };
+        let mut ts = Vec::new();
+        let blk = if version == 1 { &v1 } else { &v2 };
+        for t in &blk.times {
+            ts.extend([t - 1, *t, t + 1]);
+        }
+        if let Some(f) = blk.times.first() {
+            ts.push(f - u.int_in_range(1..=100_000_000i64)?);
+        }
+        for _ in 0..3 {
+            ts.push(u.int_in_range(c18::TS_MIN..=c18::TS_MAX)?);
+        }
+        Ok(LooseCase { version, v1, v2, footer, ts, resolve: u.ratio(1, 10)? })
+    }
+    fn check(c: &LooseCase, cx: &mut Cx) -> Verdict {
+        for b in [&c.v1, &c.v2] {
+            if b.times.len() > 64 || b.types.len() > 64 || b.chars.len() > 256 || b.leaps > 8 || b.isstd.len() > 80 || b.isut.len() > 80 || b.idx.len() > 64 {
+                return Verdict::Skip("malformed case");
+            }
+        }
+        if c.footer.len() > 500 || c.ts.len() > 400 {
+            return Verdict::Skip("malformed case");
+        }
+        let vb = match c.version {
+            1 => 0u8,
+            2 => b'2',
+            _ => b'3',
+        };
+        let mut bytes = Vec::new();
+        build_loose_block(&c.v1, 4, vb, &mut bytes);
+        if c.version != 1 {
+            build_loose_block(&c.v2, 8, vb, &mut bytes);
+            bytes.push(b'\n');
+            bytes.extend_from_slice(&c.footer);
+            bytes.push(b'\n');
+        }
+        let blk = if c.version == 1 { &c.v1 } else { &c.v2 };
+        if blk.types.is_empty() {
+            cx.nt("zero_local_time_types");
+        }
+        if blk.types.is_empty() && !blk.times.is_empty() {
+            cx.nt("transitions_without_types");
+        }
+        if blk.times.windows(2).any(|w| w[1] <= w[0]) {
+            cx.nt("unsorted_or_repeated_transition_times");
+        }
+        let v = judge_bytes(&bytes, &c.ts, c.resolve, cx);
+        astrolabe::verif::set_localtime(None);
+        astrolabe::verif::set_now(None);
+        v
+    }
+}
+
 #[derive(Debug, Clone, Hash, Serialize, Deserialize)]
 pub struct RawCase {
     pub bytes: Vec<u8>,
@@ -430,6 +645,7 @@ pub fn run(env: &mut Env) {
     });
     env.exhaustive_parts.push(format!("C19: {} base files x (12 header counts x 8 values, every truncation point (sampled above 400 bytes in quick), 40 transition-type bytes x 4 values, 13 hostile rule strings in both rule positions)", bases.len()));
     env.run_random::<Hostile>(if t { 5_000_000 } else { 600_000 });
+    env.run_random::<Loose>(if t { 3_000_000 } else { 400_000 });
     env.run_random::<Raw>(if t { 1_000_000 } else { 150_000 });
     // committed fuzz corpus / crash inputs
     let mut raws = Vec::new();
